@@ -411,7 +411,28 @@ def rule_frequency_gate(ctx):
                   f"the allele tally behind AC / AN / UAN is {dt}: more than 127 copies of one allele in a cohort wrap silently", f.where(a))
 
 
+def rule_reference_span(ctx):
+    """REF is the reference sequence of [POS, END]: the sequence fetched for a locus must be checked to have stop - start bases before
+    it becomes the locus' sequence (pysam truncates silently at the contig end: a target CHR1:50-70 on a contig of 60 bases gave POS=51,
+    END=70 and a REF of 10 bases, defect Y)"""
+    fq = 'mchap.io.loci.Locus.set_sequence'
+    f = ctx.func(fq)
+    r = ctx.recon(fq)
+    sets = [(c, conds) for c, conds, _ in r.calls if c[1].endswith('Locus.set') or c[1] == '.set']
+    ctx.need(len(sets) == 1, f"{fq}: the call that stores the fetched sequence in the locus was not found")
+    span = mkbin('Sub', ('attr', ('param', 'self'), 'stop'), ('attr', ('param', 'self'), 'start'))
+    ok = False
+    for c, pol in sets[0][1]:
+        for x in walk(c):
+            if x[0] == 'cmp' and x[1] in ('Eq', 'NotEq') and any(y[0] == 'call' and y[1] == 'len' for y in walk(x)) and any(simplify(y) == simplify(span) for y in (x[2], x[3])):
+                ok = True
+    ctx.check(ok, 'R07.7/reference-span', f.construct('fetched sequence'), "the fetched sequence is used only if it has stop - start bases",
+              "the fetched reference sequence becomes the locus' sequence without a check of its length: a target overhanging the contig end is written "
+              "with a REF shorter than [POS, END]", f.where())
+
+
 def run(ctx):
+    rule_reference_span(ctx)
     rule_frequency_gate(ctx)
     rule_small_kernels(ctx)
     rule_cardinality(ctx)
